@@ -5,6 +5,7 @@ import (
 	"github.com/hneemann/parser2/funcGen"
 	"github.com/hneemann/parser2/value"
 	"github.com/hneemann/parser2/value/export/xmlWriter"
+	"strings"
 )
 
 type xmlListExporter struct {
@@ -89,6 +90,10 @@ func (x xmlExporter) Map(m value.Map) MapExporter {
 func isSimpleMap(m value.Map) bool {
 	isSimple := true
 	m.Iter(func(key string, e value.Value) bool {
+		if !isAttributeName(key) {
+			// the key can not be used as the name of an attribute
+			isSimple = false
+		}
 		if _, ok := e.ToMap(); ok {
 			isSimple = false
 		}
@@ -101,6 +106,23 @@ func isSimpleMap(m value.Map) bool {
 		return true
 	})
 	return isSimple
+}
+
+// isAttributeName returns true if the given key can be written as the name of
+// an attribute. This is the case for simple names only, all other keys need
+// to be written as the value of a key attribute.
+func isAttributeName(key string) bool {
+	if key == "" || (len(key) >= 3 && strings.EqualFold(key[:3], "xml")) {
+		return false
+	}
+	for i, r := range key {
+		isLetter := (r >= 'a' && r <= 'z') || (r >= 'A' && r <= 'Z') || r == '_'
+		isOther := (r >= '0' && r <= '9') || r == '-' || r == '.'
+		if !(isLetter || (i > 0 && isOther)) {
+			return false
+		}
+	}
+	return true
 }
 
 func (x xmlExporter) Custom(value.Value) (bool, error) {
